@@ -1100,3 +1100,52 @@ Definition dec_crashpad (e : endian) (all bs : list Z) : option mcrashpad :=
       end
   | _ => None
   end.
+
+(* ------------------------------------------------------------------ handle object-information chains *)
+(* MINIDUMP_HANDLE_DESCRIPTOR_2.object_info_rva starts a linked list of MINIDUMP_HANDLE_OBJECT_INFORMATION
+   { next_info_rva, info_type, size_of_info } records, each read at its RVA in the whole file; the walk ends at a null
+   link, at an unreadable record, at a record of an unknown type, or after len(file)/12 records *)
+Definition known_info_type (ty : Z) : bool := (0 <=? ty) && (ty <=? 9).     (* MINIDUMP_HANDLE_OBJECT_INFORMATION_TYPE::from_u32 *)
+Fixpoint walk_chain (fuel : nat) (e : endian) (all : list Z) (rva : Z) : list (Z * Z) :=
+  match fuel with
+  | O => []
+  | S f =>
+      if rva =? 0 then []
+      else match dec_at L_MINIDUMP_HANDLE_OBJECT_INFORMATION e all rva with
+           | Some [next; ty; size] => if known_info_type ty then (ty, size) :: walk_chain f e all next else []
+           | _ => []
+           end
+  end.
+Definition read_chain (e : endian) (all : list Z) (rva : Z) : list (Z * Z) :=
+  walk_chain (Z.to_nat (zlen all / 12)) e all rva.
+(* the object_info_rva of every descriptor of a handle data stream (0 for the 32-byte descriptors) *)
+Fixpoint handle_info_rvas (e : endian) (v2 : bool) (n : nat) (bs : list Z) : list Z :=
+  match n with
+  | O => []
+  | S n' =>
+      match dec e (if v2 then L_MINIDUMP_HANDLE_DESCRIPTOR_2 else L_MINIDUMP_HANDLE_DESCRIPTOR) bs with
+      | Some (v, r) => (if v2 then nth 7 (vflat v) 0 else 0) :: handle_info_rvas e v2 n' r
+      | None => []
+      end
+  end.
+Definition dec_handle_chains (e : endian) (all bs : list Z) : option (list (list (Z * Z))) :=
+  obnd (dec_handle_hdr e bs) (fun r =>
+    let v2 := fst r =? handle_esize true in
+    Some (map (read_chain e all) (handle_info_rvas e v2 (Z.to_nat (fst (snd r))) (snd (snd r))))).
+(* a chain as a writer may lay it out: the k-th record of the chain is stored at [nth k rvas]; e.g. in chain order
+   (forward links) or last record first (every link points to a lower offset) *)
+Definition enc_info_record (e : endian) (next : Z) (i : Z * Z) : list Z :=
+  enc e L_MINIDUMP_HANDLE_OBJECT_INFORMATION (vtuple [VInt next; VInt (fst i); VInt (snd i)]).
+Fixpoint enc_chain_fwd (e : endian) (off : Z) (l : list (Z * Z)) : list Z :=
+  match l with
+  | [] => []
+  | [i] => enc_info_record e 0 i
+  | i :: t => enc_info_record e (off + 12) i ++ enc_chain_fwd e (off + 12) t
+  end.
+(* last record first: returns the bytes; the first record of the chain sits at off + 12 * (n - 1) *)
+Fixpoint enc_chain_bwd (e : endian) (off : Z) (l : list (Z * Z)) : list Z :=
+  match l with
+  | [] => []
+  | i :: t => enc_chain_bwd e off t
+              ++ enc_info_record e (match t with [] => 0 | _ => off + 12 * (zlen t - 1) end) i
+  end.
